@@ -379,7 +379,7 @@ Definition step (sc : scenario) (s : state) (e : event) : option state :=
   | EUpdate p sn =>
     match in_round s p with
     | Some r =>
-      if negb (r_updated r)
+      if negb (r_updated r) && r_owns r
          && forallb (update_ok_job r sn) (all_jobs sc)
          && eqsetN (sn_ids sn) (r_out r) && nodupbN (sn_ids sn)
          && N.eqb (sn_index sn) (r_index r)
